@@ -67,7 +67,7 @@ func mustPrecede(w *World, fn *ssa.Function, a func(ssa.Instruction) bool, b ssa
 			return
 		}
 		for _, g := range guardsOf(in.Block()) {
-			v, _ := stripNot(g.Cond, true)
+			v, _ := stripNotThroughPredicates(g.Cond, true) // the switch may be read through a predicate method
 			if strings.Contains(w.Origin(v), ".config.") {
 				if g.Branch {
 					skip[g.If] = 1
